@@ -164,7 +164,19 @@ class QuotientWorld(Scenario):
         except (Violation, HarnessError):
             raise
         except Exception as e:
-            return "exc", e
+            from probables.exceptions import QuotientFilterError
+            from ..core import _raised_in_library
+
+            if isinstance(e, QuotientFilterError):
+                return "exc", e  # the documented refusal; callers decide whether it was due
+            where = _raised_in_library(e)
+            if where is None:
+                raise
+            s2 = dict(sig or {})
+            s2.update(self.full_sig())
+            s2["exception"] = type(e).__name__
+            raise Violation("unexpected_exception", f"{what} raised {type(e).__name__}: {e} at {where} "
+                                                    f"(size {self.f.size}, {len(self.model)} stored)", s2)
 
     def full_sig(self):
         return {"table_full": len(self.model) >= self.f.size, "auto_expand": bool(self.auto),
@@ -292,11 +304,15 @@ class QuotientWorld(Scenario):
         else:
             raise HarnessError(op)
         if st == "exc":
-            # a mutating call raised: the statement no longer covers this run
-            self.claim_open = False
-            ctx.count("mutating_call_raised")
+            # The model's preconditions keep the generator away from every documented refusal (new hash into a full
+            # table that will not grow, resize below the population or outside 3..31, merge that cannot fit), so a
+            # QuotientFilterError here refuses a call the documentation allows.
             ctx.count("mutating_call_raised." + type(v).__name__)
-            return {"r": "exc:" + type(v).__name__}
+            s2 = self.full_sig()
+            s2["op"] = op
+            raise Violation("valid_call_refused", f"{step} raised QuotientFilterError: {v} although the call is valid by the "
+                                                  f"documentation (size {f.size}, {len(self.model)} stored, auto_expand="
+                                                  f"{self.auto}, max_load_factor={self.mlf})", s2)
         if len(self.model) >= f.size:
             ctx.probe("table_100pct_full")
         self.observe(step)
